@@ -1,11 +1,76 @@
-import PyTrie.Model.Basic
-/-! Line-protocol front end for the `fog.*` commands (stub: to be filled in). -/
+import PyTrie.Model.Fog
+/-! Line-protocol front end for the `fog.*` commands. Fog values are immutable; every value ever
+    produced is kept in a table and addressed by its index. Paths: one hex digit per nibble, `-` = ();
+    path lists are comma separated, `-` = empty list. -/
 namespace PyTrie.FogDrv
+open PyTrie.Hex PyTrie.Fog
 
 structure St where
-  dummy : Unit := ()
+  fogs : Array Fog := #[]
   deriving Inhabited
 
-def step (st : St) (_cmd : String) (_args : List String) : St × String := (st, "bad-op")
+def pathStr (p : Path) : String :=
+  if p.isEmpty then "-" else String.ofList (p.map fun n => hexDigit n.val)
+
+def parsePath (s : String) : Option Path :=
+  if s = "-" then some [] else s.toList.mapM fun c => (hexVal c).map (Fin.ofNat 16)
+
+/-- `-` = no paths; `_` inside a list stands for the empty path -/
+def parsePaths (s : String) : Option (List Path) :=
+  if s = "-" then some [] else (s.splitOn ",").mapM fun t => if t = "_" then some [] else parsePath t
+
+def showFog (f : Fog) : String := if f.isEmpty then "-" else ",".intercalate (f.map fun p => if p.isEmpty then "_" else pathStr p)
+
+def fmtErr : Err → String
+  | .validation => "exn ValidationError"
+  | .perfect => "exn PerfectVisibility"
+  | .fullDir => "exn FullDirectionalVisibility"
+
+def step (st : St) (cmd : String) (args : List String) : St × String :=
+  let bad := (st, "bad-op")
+  let getFog (s : String) : Option Fog := s.toNat?.bind fun i => st.fogs[i]?
+  match cmd, args with
+  | "reset", [] => ({}, "ok")
+  | "new", [] => ({ st with fogs := st.fogs.push Fog.init }, toString st.fogs.size)
+  | "explore", [i, old, subs] =>
+    match getFog i, parsePath old, parsePaths subs with
+    | some f, some old, some subs =>
+      match explore f old subs with
+      | .ok f' => ({ st with fogs := st.fogs.push f' }, toString st.fogs.size)
+      | .error e => (st, fmtErr e)
+    | _, _, _ => bad
+  | "mark", [i, ps] =>
+    match getFog i, parsePaths ps with
+    | some f, some ps =>
+      match markAllComplete f ps with
+      | .ok f' => ({ st with fogs := st.fogs.push f' }, toString st.fogs.size)
+      | .error e => (st, fmtErr e)
+    | _, _ => bad
+  | "show", [i] => match getFog i with | some f => (st, showFog f) | none => bad
+  | "complete", [i] => match getFog i with | some f => (st, if isComplete f then "True" else "False") | none => bad
+  | "nu", [i, k] =>
+    match getFog i, parsePath k with
+    | some f, some k => (st, match nearestUnknown f k with | .ok p => "p " ++ pathStr p | .error e => fmtErr e)
+    | _, _ => bad
+  | "nr", [i, k] =>
+    match getFog i, parsePath k with
+    | some f, some k => (st, match nearestRight f k with | .ok p => "p " ++ pathStr p | .error e => fmtErr e)
+    | _, _ => bad
+  | "ser", [i] =>
+    match getFog i with
+    | some f => (st, if f.isEmpty then "-" else ",".intercalate ((serialize f).map toHex))
+    | none => bad
+  | "deser", [bs] =>
+    let toks := if bs = "-" then [] else bs.splitOn ","
+    match toks.mapM ofHex with
+    | none => bad
+    | some l => match deserialize l with
+      | some f => ({ st with fogs := st.fogs.push f }, toString st.fogs.size)
+      | none => (st, "exn IndexError")
+  | "eq", [i, j] =>
+    match getFog i, getFog j with
+    | some a, some b => (st, if a = b then "True" else "False")
+    | _, _ => bad
+  | _, _ => bad
 
 end PyTrie.FogDrv
